@@ -14,7 +14,7 @@ ENCODED = [
     "elexmodel.models.ConformalElectionModel:ConformalElectionModel.get_unit_prediction_interval_bounds",
 ] + P.ENCODED_PIPELINE
 STUBS = P.STUBS_PIPELINE + [
-    "fault injection: the k-th call of QuantileRegressionSolver.fit raises cvxpy.error.SolverError, or issues a UserWarning "
+    "fault injection: the k-th quantile solve inside QuantileRegressionSolver.fit (coefficient vectors of the quantiles of the same call solved before it stay appended, as in the real solver) raises cvxpy.error.SolverError, or issues a UserWarning "
     "attributed to module cvxpy.* (the repository's own warnings.filterwarnings('error', ...) line turns it into an exception)",
     P.CUT_STUB_NOTE]
 ASSUMES = P.ASSUMES_PIPELINE + ["boot_sigma modelled as a deterministic function of its data here (its seeding is C12's subject)",
@@ -82,9 +82,12 @@ def run(ctx, case):
     flt = P.run_client(ctx, case, sc=sc, frames=(frames[0].copy(), frames[1].copy()), qr_fail=make_fail(case, log))
     obl = []
     calls = flt.qr.calls
-    obl.append(("the injected fault was reached (fit #%d exists)" % case["fail_at"], log.get("failed_at") is not None))
-    obl.append(("fault-free run makes the expected number of fits", len(ref.qr.calls) == case["nfits"]))
-    k = log.get("failed_at")
+    obl.append(("the injected fault was reached (solve #%d exists)" % case["fail_at"], log.get("failed_at") is not None))
+    # faults are indexed by quantile solves (one per fit call in the unchanged tree; a fit of several quantiles fails at any of them,
+    # leaving the coefficient vectors of the quantiles solved before behind, as the real solver does)
+    n_solves = sum(1 if isinstance(c_["taus"], float) else len(list(c_["taus"])) for c_ in ref.qr.calls)
+    obl.append(("fault-free run solves the expected number of quantile regressions", n_solves == case["nfits"]))
+    k = next((i for i, c_ in enumerate(calls) if c_.get("failed")), None)
     if k is not None:
         failed = calls[k]
         if failed.get("warning_not_raised"):
